@@ -68,6 +68,7 @@ func VF_C14_resolve() {
 	vfAssume(vfInRe(r, docPath))
 	want := refResolve(as, ps, r)
 	local := im.Alias(r)
+	vfObserve("local", local)
 	got, n := vfPathOf(im, local)
 	vfAssert(n == 1, "the local name denotes one import")
 	vfAssert(got == want, "reference resolves to the package denoted by the alias table (whole segments only)")
@@ -85,6 +86,7 @@ func VF_C14_names() {
 	vfAssume(vfInRe(r1, docPath) && vfInRe(r2, docPath))
 	w1, w2 := refResolve(as, ps, r1), refResolve(as, ps, r2)
 	n1, n2 := im.Alias(r1), im.Alias(r2)
+	vfObserve("locals", n1+" "+n2)
 	vfAssert((w1 == w2) == (n1 == n2), "equal packages share a local name, different packages never do")
 	vfAssert(vfInRe(n1, docLocal) && vfInRe(n2, docLocal), "local names are Go identifiers")
 	imps := im.Imports()
